@@ -1484,6 +1484,11 @@ class Interp:
         if name == "extend":
             recv.extend(self.iterate(args[0]))
             return ()
+        if name == "append":
+            other = args[0]
+            recv.extend(other)
+            del other[:]
+            return ()
         if name == "clear":
             del recv[:]
             return ()
